@@ -644,6 +644,19 @@ func vsimMapKeys[K cmp.Ordered, V any](m map[K]V) []K {
 		keys = append(keys, k)
 	}
 	slices.Sort(keys)
+	if u, ok := any(keys).([]uint32); ok && len(u) > 1 {
+		// 32-bit keys are sequence numbers: start after the largest circular gap, so that the
+		// base order is by serial-number distance and does not change when the whole key set is
+		// shifted across 2^32 (the shifted twin runs of C16 rely on this).
+		best, at := u[0]-u[len(u)-1], 0
+		for i := 1; i < len(u); i++ {
+			if g := u[i] - u[i-1]; g > best {
+				best, at = g, i
+			}
+		}
+		r := append(append([]uint32{}, u[at:]...), u[:at]...)
+		copy(u, r)
+	}
 	s := vsim
 	if s == nil || len(keys) < 2 {
 		return keys
